@@ -15,11 +15,61 @@ Definition embed_loop {A} (p : N) (o : outcome A) : out N * hist :=
   end.
 
 (* what a successful reference run guarantees about its final state *)
-Definition consumed_from {A} (p : N) (b : list byte) (o : outcome A) : Prop :=
+Definition consumed_from {A} (q : N) (cur : list byte) (o : outcome A) : Prop :=
   match o with
-  | Done _ s' => exists c, b = c ++ inp s' /\ pos s' = p + lenN c
+  | Done _ s' => exists c, cur = c ++ inp s' /\ pos s' = q + lenN c
   | _ => True
   end.
+
+Definition list_empty {A} (l : list A) : bool := match l with [] => true | _ => false end.
+
+Lemma list_empty_len {A} (l : list A) : list_empty l = (lenN l =? 0).
+Proof. destruct l; [reflexivity|]. rewrite lenN_cons. cbn [list_empty]. symmetry. apply N.eqb_neq. lia. Qed.
+
+Lemma cs_dec_first b n cb rest : cs_dec b = CsOk n cb rest ->
+  exists b0 t, cb = b0 :: t /\ (b2n b0 =? 0) = (n =? 0).
+Proof.
+  unfold cs_dec, cs_wide. destruct b as [|b0 t]; [discriminate|]. cbn zeta.
+  pose proof (b2n_lt b0) as Hb.
+  destruct (N.eqb_spec (b2n b0) 255) as [E1|N1].
+  { destruct (splitN t 8) as [[m r]|]; [|discriminate]. unfold U32MAX.
+    destruct (N.ltb_spec 4294967295 (le_dec m)); [|discriminate]. intros HH. injection HH as <- <- <-.
+    exists b0, m. split; [reflexivity|]. rewrite E1.
+    destruct (N.eqb_spec (le_dec m) 0); [lia|reflexivity]. }
+  destruct (N.eqb_spec (b2n b0) 254) as [E2|N2].
+  { destruct (splitN t 4) as [[m r]|]; [|discriminate]. unfold U16MAX.
+    destruct (N.ltb_spec 65535 (le_dec m)); [|discriminate]. intros HH. injection HH as <- <- <-.
+    exists b0, m. split; [reflexivity|]. rewrite E2.
+    destruct (N.eqb_spec (le_dec m) 0); [lia|reflexivity]. }
+  destruct (N.eqb_spec (b2n b0) 253) as [E3|N3].
+  { destruct (splitN t 2) as [[m r]|]; [|discriminate].
+    destruct (N.leb_spec 253 (le_dec m)); [|discriminate]. intros HH. injection HH as <- <- <-.
+    exists b0, m. split; [reflexivity|]. rewrite E3.
+    destruct (N.eqb_spec (le_dec m) 0); [lia|reflexivity]. }
+  intros HH. injection HH as <- <- <-. exists b0, []. split; reflexivity.
+Qed.
+
+Lemma cs_dec_zero b cb rest : cs_dec b = CsOk 0 cb rest -> lenN cb = 1.
+Proof.
+  unfold cs_dec, cs_wide. destruct b as [|b0 t]; [discriminate|]. cbn zeta.
+  destruct (b2n b0 =? 255).
+  { destruct (splitN t 8) as [[m r]|]; [|discriminate]. unfold U32MAX.
+    destruct (N.ltb_spec 4294967295 (le_dec m)); [|discriminate]. intros HH. injection HH as HH _ _. lia. }
+  destruct (b2n b0 =? 254).
+  { destruct (splitN t 4) as [[m r]|]; [|discriminate]. unfold U16MAX.
+    destruct (N.ltb_spec 65535 (le_dec m)); [|discriminate]. intros HH. injection HH as HH _ _. lia. }
+  destruct (b2n b0 =? 253).
+  { destruct (splitN t 2) as [[m r]|]; [|discriminate].
+    destruct (N.leb_spec 253 (le_dec m)); [|discriminate]. intros HH. injection HH as HH _ _. lia. }
+  intros HH. injection HH as _ <- _. reflexivity.
+Qed.
+
+(* [self.slice[0] == 0] on a view that starts with the compact size of the count *)
+Lemma first_byte_zero p (cb c2 : list byte) b0 t n : cb = b0 :: t -> (b2n b0 =? 0) = (n =? 0) ->
+  obind (s_index (sl p (cb ++ c2)) 0) (fun x => Ok (b2n x =? 0)) = Ok (n =? 0).
+Proof.
+  intros -> HH. unfold s_index, sl. cbn [bytes app]. rewrite splitN_0. cbn [obind]. rewrite HH. reflexivity.
+Qed.
 
 Lemma emit_emitp brk e h p b :
   emit brk e h = match emitp e brk (st0 p b h) with
@@ -102,7 +152,7 @@ Lemma txins_loop_ref brk p b total :
   forall fuelI fuelR pre cur i h,
   b = pre ++ cur -> (length cur < fuelI)%nat -> (length cur < fuelR)%nat ->
   loop_fuel fuelR txins_body i total brk (st0 (p + lenN pre) cur h) <> Stuck /\
-  consumed_from p b (loop_fuel fuelR txins_body i total brk (st0 (p + lenN pre) cur h)) /\
+  consumed_from (p + lenN pre) cur (loop_fuel fuelR txins_body i total brk (st0 (p + lenN pre) cur h)) /\
   txins_loop fuelI brk (sl p b) i total (lenN pre) h
   = embed_loop p (loop_fuel fuelR txins_body i total brk (st0 (p + lenN pre) cur h)).
 Proof.
@@ -111,7 +161,7 @@ Proof.
   subst b. rewrite (impl_txins_step _ _ _ _ _ _ _ _ H63), ref_txins_step.
   destruct (i <? total).
   2:{ cbn [embed_loop consumed_from st0 pos hi inp]. repeat split; try discriminate.
-      - exists pre. split; reflexivity.
+      - exists []. split; [reflexivity|change (lenN (@nil byte)) with 0; lia].
       - repeat f_equal. lia. }
   destruct (l_txin cur) as [[[[[t v] cb] sg] ql] r|e] eqn:L.
   2:{ cbn [embed_loop consumed_from]. repeat split; discriminate. }
@@ -130,7 +180,9 @@ Proof.
   destruct IH as [IH1 [IH2 IH3]].
   rewrite IH3.
   destruct (loop_fuel fuelR txins_body (i + 1) total brk _) as [l s2|e2 h2|]; [|cbn; repeat split; discriminate|contradiction].
-  cbn [embed_loop consumed_from] in *. repeat split; [discriminate|exact IH2].
+  cbn [embed_loop consumed_from] in *. repeat split; [discriminate|].
+  destruct IH2 as [c2 [Hr Hp2]]. exists (c ++ c2).
+  split; [rewrite Hcur, Hr, app_assoc; reflexivity|rewrite lenN_app, Lc; lia].
 Qed.
 
 (* ---- embedding of a visit outcome ---- *)
@@ -222,14 +274,17 @@ Qed.
 
 Theorem visit_txins_ref brk p b h : In63 b ->
   r_txins brk (st0 p b h) <> Stuck /\
-  consumed_from p b (r_txins brk (st0 p b h)) /\
+  (forall a s', r_txins brk (st0 p b h) = Done a s' ->
+     exists c, b = c ++ inp s' /\ pos s' = p + lenN c /\ 1 <= lenN c /\
+               txins_is_empty {| tis_slice := sl p c; tis_n := lenN a |} = Ok (list_empty a) /\
+               (a = [] -> lenN c = 1)) /\
   visit_txins brk (sl p b) h
   = embed_visit (fun a s' => {| tis_slice := view p b s'; tis_n := lenN a |}) (r_txins brk (st0 p b h)).
 Proof.
   intros H63. rewrite visit_txins_eq, r_txins_eq.
   destruct (cs_dec b) as [n cb rest| |] eqn:E.
-  2:{ cbn. repeat split; discriminate. }
-  2:{ cbn. repeat split; discriminate. }
+  2:{ cbn. repeat split; try discriminate. }
+  2:{ cbn. repeat split; try discriminate. }
   destruct (cs_dec_ok _ _ _ _ E) as [Hb [Hc Hn]].
   assert (F1 : (length rest < S (length b))%nat). { rewrite Hb, app_length. lia. }
   assert (F2 : (length rest < S (length rest))%nat) by lia.
@@ -237,13 +292,27 @@ Proof.
   rewrite L3.
   destruct (loop_fuel (S (length rest)) txins_body 0 n brk (st0 (p + lenN cb) rest (ETxIns n :: h))) as [l s'|e h'|] eqn:LF.
   3:{ contradiction. }
-  2:{ cbn. repeat split; discriminate. }
-  cbn [embed_loop consumed_from] in *. destruct L2 as [c [Hbc Hpos]].
-  repeat split; [discriminate|exists c; split; assumption|].
+  2:{ cbn. repeat split; try discriminate. }
+  cbn [embed_loop consumed_from] in *. destruct L2 as [c2 [Hrest Hpos2]].
+  set (c := cb ++ c2).
+  assert (Hbc : b = c ++ inp s'). { unfold c. rewrite Hb, Hrest, app_assoc. reflexivity. }
+  assert (Hpos : pos s' = p + lenN c). { unfold c. rewrite lenN_app. lia. }
+  assert (H0n : 0 <= n) by lia.
+  pose proof (loop_fuel_len _ _ _ _ _ _ _ _ H0n LF) as Hlen. rewrite N.sub_0_r in Hlen.
+  repeat split; [discriminate| |].
+  { intros a s2 HD. injection HD as <- <-. exists c. repeat split; try assumption.
+    - unfold c. rewrite lenN_app. lia.
+    - destruct (cs_dec_first _ _ _ _ E) as [b0 [t [Hcb Hz]]].
+      unfold txins_is_empty. cbn [tis_slice]. unfold c. rewrite (first_byte_zero p cb c2 b0 t n Hcb Hz).
+      rewrite list_empty_len, Hlen. reflexivity.
+    - intros ->. change (lenN (@nil a_txin)) with 0 in Hlen. subst n.
+      cbn [loop_fuel] in LF. change (0 <? 0) with false in LF. unfold ret in LF. injection LF as <-.
+      cbn [pos st0] in Hpos2. assert (lenN c2 = 0) by lia.
+      unfold c. rewrite lenN_app. rewrite (cs_dec_zero _ _ _ E). lia. }
   unfold finish_txins. rewrite Hpos. replace (p + lenN c - p) with (lenN c) by lia.
   rewrite Hbc. unfold sl at 1 2. rewrite s_from_app, s_to_app.
   cbn [embed_visit]. rewrite (view_app p c s' Hpos).
-  assert (H0n : 0 <= n) by lia. rewrite (loop_fuel_len _ _ _ _ _ _ _ _ H0n LF). rewrite N.sub_0_r, Hpos. reflexivity.
+  rewrite Hlen, Hpos. reflexivity.
 Qed.
 
 (* ---- outputs (same structure) ---- *)
@@ -314,7 +383,7 @@ Lemma txouts_loop_ref brk p b total :
   forall fuelI fuelR pre cur i h,
   b = pre ++ cur -> (length cur < fuelI)%nat -> (length cur < fuelR)%nat ->
   loop_fuel fuelR txouts_body i total brk (st0 (p + lenN pre) cur h) <> Stuck /\
-  consumed_from p b (loop_fuel fuelR txouts_body i total brk (st0 (p + lenN pre) cur h)) /\
+  consumed_from (p + lenN pre) cur (loop_fuel fuelR txouts_body i total brk (st0 (p + lenN pre) cur h)) /\
   txouts_loop fuelI brk (sl p b) i total (lenN pre) h
   = embed_loop p (loop_fuel fuelR txouts_body i total brk (st0 (p + lenN pre) cur h)).
 Proof.
@@ -323,7 +392,7 @@ Proof.
   subst b. rewrite (impl_txouts_step _ _ _ _ _ _ _ _ H63), ref_txouts_step.
   destruct (i <? total).
   2:{ cbn [embed_loop consumed_from st0 pos hi inp]. repeat split; try discriminate.
-      - exists pre. split; reflexivity.
+      - exists []. split; [reflexivity|change (lenN (@nil byte)) with 0; lia].
       - repeat f_equal. lia. }
   destruct (l_txout cur) as [[[v cb] spk] r|e] eqn:L.
   2:{ cbn [embed_loop consumed_from]. repeat split; discriminate. }
@@ -342,7 +411,9 @@ Proof.
   destruct IH as [IH1 [IH2 IH3]].
   rewrite IH3.
   destruct (loop_fuel fuelR txouts_body (i + 1) total brk _) as [l s2|e2 h2|]; [|cbn; repeat split; discriminate|contradiction].
-  cbn [embed_loop consumed_from] in *. repeat split; [discriminate|exact IH2].
+  cbn [embed_loop consumed_from] in *. repeat split; [discriminate|].
+  destruct IH2 as [c2 [Hr Hp2]]. exists (c ++ c2).
+  split; [rewrite Hcur, Hr, app_assoc; reflexivity|rewrite lenN_app, Lc; lia].
 Qed.
 
 Lemma r_txouts_eq brk p b h :
@@ -393,14 +464,16 @@ Qed.
 
 Theorem visit_txouts_ref brk p b h : In63 b ->
   r_txouts brk (st0 p b h) <> Stuck /\
-  consumed_from p b (r_txouts brk (st0 p b h)) /\
+  (forall a s', r_txouts brk (st0 p b h) = Done a s' ->
+     exists c, b = c ++ inp s' /\ pos s' = p + lenN c /\ 1 <= lenN c /\
+               txouts_is_empty {| tos_slice := sl p c; tos_n := lenN a |} = Ok (list_empty a)) /\
   visit_txouts brk (sl p b) h
   = embed_visit (fun a s' => {| tos_slice := view p b s'; tos_n := lenN a |}) (r_txouts brk (st0 p b h)).
 Proof.
   intros H63. rewrite visit_txouts_eq, r_txouts_eq.
   destruct (cs_dec b) as [n cb rest| |] eqn:E.
-  2:{ cbn. repeat split; discriminate. }
-  2:{ cbn. repeat split; discriminate. }
+  2:{ cbn. repeat split; try discriminate. }
+  2:{ cbn. repeat split; try discriminate. }
   destruct (cs_dec_ok _ _ _ _ E) as [Hb [Hc Hn]].
   assert (F1 : (length rest < S (length b))%nat). { rewrite Hb, app_length. lia. }
   assert (F2 : (length rest < S (length rest))%nat) by lia.
@@ -408,11 +481,21 @@ Proof.
   rewrite L3.
   destruct (loop_fuel (S (length rest)) txouts_body 0 n brk (st0 (p + lenN cb) rest (ETxOuts n :: h))) as [l s'|e h'|] eqn:LF.
   3:{ contradiction. }
-  2:{ cbn. repeat split; discriminate. }
-  cbn [embed_loop consumed_from] in *. destruct L2 as [c [Hbc Hpos]].
-  repeat split; [discriminate|exists c; split; assumption|].
+  2:{ cbn. repeat split; try discriminate. }
+  cbn [embed_loop consumed_from] in *. destruct L2 as [c2 [Hrest Hpos2]].
+  set (c := cb ++ c2).
+  assert (Hbc : b = c ++ inp s'). { unfold c. rewrite Hb, Hrest, app_assoc. reflexivity. }
+  assert (Hpos : pos s' = p + lenN c). { unfold c. rewrite lenN_app. lia. }
+  assert (H0n : 0 <= n) by lia.
+  pose proof (loop_fuel_len _ _ _ _ _ _ _ _ H0n LF) as Hlen. rewrite N.sub_0_r in Hlen.
+  repeat split; [discriminate| |].
+  { intros a s2 HD. injection HD as <- <-. exists c. repeat split; try assumption.
+    - unfold c. rewrite lenN_app. lia.
+    - destruct (cs_dec_first _ _ _ _ E) as [b0 [t [Hcb Hz]]].
+      unfold txouts_is_empty. cbn [tos_slice]. unfold c. rewrite (first_byte_zero p cb c2 b0 t n Hcb Hz).
+      rewrite list_empty_len, Hlen. reflexivity. }
   unfold finish_txouts. rewrite Hpos. replace (p + lenN c - p) with (lenN c) by lia.
   rewrite Hbc. unfold sl at 1 2. rewrite s_from_app, s_to_app.
   cbn [embed_visit]. rewrite (view_app p c s' Hpos).
-  assert (H0n : 0 <= n) by lia. rewrite (loop_fuel_len _ _ _ _ _ _ _ _ H0n LF). rewrite N.sub_0_r, Hpos. reflexivity.
+  rewrite Hlen, Hpos. reflexivity.
 Qed.
